@@ -5,7 +5,7 @@
    statement by statement as a pure step function  Step(s, c)  on byte codes.
 
      Run(s, chunk)   = XdlParser::parse(chunk)          Result(s) = XdlParser::value()
-     Decode(text)    = XdlParser::decode(text) = parse(text); parse(" "); value()
+     Decode(text)    = XdlParser::decode(text) = parse(text); parse(Flush); value()      Flush = "\n" (pinned tree: " ")
 
    Values are the tagged records of JsonText (numbers stay tokens: the buffer handed to atof/myatoiz).
    The record field  bad  is a ghost: it is set when the design would read or pop an empty Stack (Stack::top()/pop()
@@ -224,7 +224,21 @@ Result(s) ==   \* XdlParser::value()
     ELSE LET l == s.lists[1].items IN
          IF CtxTop(s) = "ROOT" /\ s.st = "WAIT_VALUE" /\ Len(l) > 0 THEN [ok |-> TRUE, v |-> l[Len(l)]]
          ELSE [ok |-> FALSE, v |-> [z |-> 0]]
-Decode(text) == Result(Run(Run(SMInit, text), <<32>>))
+\* the end of the text: decode() and Xdl::read() finish with parse(Flush).  The repaired tree flushes with a line feed, which
+\* ends a pending token *and* a line comment that runs to the end of the text; the pinned tree flushed with a blank, so
+\* that  [1] // done  (no final newline) had no value (defect TrailingLineComment, fixes/C06-trailing-line-comment.diff)
+Flush == <<10>>
+FlushPinned == <<32>>
+Decode(text) == Result(Run(Run(SMInit, text), Flush))
+
+\* ---- the object API beyond one decode (XdlParserApi explores it) ----
+\* XdlParser::decode(text) on an object that may have been used before: parse(text); parse(" "); the caller reads value()
+DecodeOn(s, text) == Run(Run(s, text), Flush)
+\* XdlParser::reset(): the repaired design re-initializes every member the constructor sets ...
+ResetFull(s) == SMInit
+\* ... the pinned tree only the context stack, the state and the token buffer: open containers, pending property names,
+\* the comment flag and the \u accumulator of the abandoned text stay behind (defect ResetKeepsState, fixes/C06-reset-keeps-state.diff)
+ResetPinned(s) == [s EXCEPT !.ctx = <<"ROOT">>, !.st = "WAIT_VALUE", !.buf = <<>>]
 
 \* the design never touches an empty stack
 NoUnderflowS(s) == ~s.bad /\ s.ctx # <<>> /\ s.lists # <<>>
